@@ -30,7 +30,8 @@ def wedge_oracle(ix: Index, scn: dict) -> list[Violation]:
         elif kind == "op_start":
             op = ops_by_start[seq]
             st = conn_state.get(latest) if latest else None
-            idle = not inflight and (latest is None or st == "CLOSED")
+            # a connection that never left INITIALIZED with no phase call running on it is a dead object, not an attempt
+            idle = not inflight and (latest is None or st in ("CLOSED", "INITIALIZED"))
             alive = st == "CONNECTED"
             # an attempt of another caller that is still running on a connection that has not been closed
             busy = [k for k, o in inflight.items() if o.conn is not None and conn_state.get(o.conn) not in (None, "CLOSED", "CONNECTED")]
@@ -111,6 +112,19 @@ def gen_c19(rng: random.Random) -> dict:
             events.append({"at": trig, "do": "poke", "what": "force_disconnect", "phase": pick(rng, ["pre", "post"])})
         else:
             events.append({"at": trig, "do": "start_actor", "actor": "closer", "phase": pick(rng, ["pre", "post"])})
+    if rng.random() < 0.2:
+        # the caller gives up on a graceful disconnect that waits for the device (wait_for / cancel): the session it
+        # could not end is still alive and must stay known to the client
+        device.setdefault("replies", {})["DisconnectRequest"] = pick(rng, [["silent"], [{"msgs": [["DisconnectResponse", {}]], "delay": pick(rng, [0.5, 3.0])}]])
+        for st in steps:
+            st["stop_on_cancel"] = False
+        for _ in range(rng.randint(1, 2)):
+            events.append({"at": {"on": "op_start", "match": {"actor": "a0", "do": "disconnect"}, "nth": rng.randint(1, 2), "delay": pick(rng, [0.0, 0.01, 0.2])}, "do": "poke", "what": "cancel", "target": "a0", "phase": pick(rng, ["pre", "post"])})
+    if rng.random() < 0.15:
+        # for a while every freshly connected socket fails an OS call of the connect phase (peer resets right behind the accept)
+        t_on = rng.random() * 2.0
+        events.append({"at": {"t": t_on}, "do": "fault", "kind": "knob", "name": "sock_fail", "value": pick(rng, ["nodelay", "getpeername"])})
+        events.append({"at": {"t": t_on + pick(rng, [0.01, 0.5, 2.0])}, "do": "fault", "kind": "knob", "name": "sock_fail", "value": None})
     actors = [{"id": "a0", "at": {"t": 0.0}, "steps": steps}, {"id": "closer", "at": "manual", "steps": [{"do": "disconnect"}]}]
     extra: dict = {}
     if rng.random() < 0.25:
